@@ -98,6 +98,7 @@ func incByZKHost(h string) string {
 }
 
 func (s *Sim) drainHooks() {
+	s.drainRestarts()
 	hookMu.Lock()
 	q := hookQ
 	hookQ = nil
